@@ -12,7 +12,8 @@
 EXTENDS Integers, Sequences, FiniteSets, TLC, SequencesExt, FiniteSetsExt
 
 \* ---------------------------------------------------------------- strings
-Alphabet == <<"+", "-", ".", "0", "1", "2", "3", "5", "9", "a", "b", "c", "e">>   \* in ASCII order
+\* in byte order; "Y" and "X" are not letters but the bytes 0xA9 and 0xC3 (X Y = the two-byte character e-acute)
+Alphabet == <<"+", "-", ".", "0", "1", "2", "3", "5", "9", "a", "b", "c", "e", "Y", "X">>
 Ord(c) == CHOOSE i \in 1..Len(Alphabet) : Alphabet[i] = c
 
 RECURSIVE StrLess(_, _)
